@@ -101,6 +101,9 @@ def bits(carrier, dtype, spelling):
         return
     sx.observe("got", got)
     sx.prove(got == ((raw >> lo) & mask), "bit field read", tag + "/read")
+    # the value changes by another route (a download, a received PDO) before the bit assignment
+    rb, raw = _fresh_raw(dtype)
+    car.set_raw_bytes(sx.items(rb))
     fv = sx.fresh_int("fv", 0, mask)
     try:
         car.var.bits[key] = fv
@@ -231,7 +234,7 @@ def phys_passthrough():
 # 31-bit range); for other factors the float64 divider has to be bit-blasted and only small raw ranges
 # finish (measured: 0.1 at R=4 80 s, R=10 190 s, R=31 > 300 s).
 PHYS_Q = [(0.5, "float", 31), (2.0, "float", 31), (-0.25, "float", 31), (1, "int", 31), (2, "int", 31),
-          (-4, "int", 31), (1000.0, "float", 4), (3.0, "float", 4), (10, "int", 4)]
+          (-4, "int", 31), (-1, "int", 31), (1000.0, "float", 4), (3.0, "float", 4), (10, "int", 4), (-3, "int", 4)]
 PHYS_T = PHYS_Q + [(0.1, "float", 10), (0.001, "float", 4), (3, "int", 10), (1000, "int", 6), (0.3, "float", 4),
                    (1000.0, "float", 16), (-3.0, "float", 4), (7, "int", 6), (0.125, "float", 31),
                    (1024.0, "float", 31), (-8, "int", 31), (12345.678, "float", 4), (1e-6, "float", 4)]
